@@ -15,7 +15,7 @@ META = {
             "lightweight with a requirement, permissions imply must-authenticate - every credential outcome and every outcome "
             "of the other checks and every body (absent / valid / invalid for the route's payload validations): handler invoked -> "
             "authenticated when required, and authenticated with all required permissions or administrator), "
-            "C20_rejected_not_invoked (a failed authentication or permission check is final whatever the body), C20_builder_partial (any order of builder calls without Authentication(false)/LightWeight(true) "
+            "C20_rejected_not_invoked (a failed authentication or permission check is final whatever the body), C20_revoked_not_invoked (after any history of permission changes and requests a user who NOW holds neither a required permission nor ego.root does not reach the handler; driven on the file-backed and the SQL-backed user store), C20_builder_partial (any order of builder calls without Authentication(false)/LightWeight(true) "
             "yields safe flags and keeps a requested authentication), C20_refuted / C20_refuted_perms_unauth / "
             "C20_builder_refuted (the unguarded claims are false: LightWeight(true).Authentication(true) runs the handler without "
             "credentials; Permissions(p).Authentication(false) runs it for a wrong password of a user holding p; "
@@ -71,6 +71,10 @@ CORPUS = [
     ([VAL], "none", "valid"),
     ([VAL], "none", "invalid"),
     ([["Permissions", ["p3"]], VAL], "locked_carol", "valid"),
+    # repeated Permissions calls with a duplicate before a new name (seeded change C20-1)
+    ([["Permissions", ["p1"]], ["Permissions", ["p1", "p3"]]], "goodtoken_alice", "empty"),
+    ([["Permissions", ["p1", "p2"]], ["Permissions", ["p2", "p1", "p3"]]], "goodbasic_alice", "empty"),
+    ([["Permissions", ["p2"]], ["Authentication", True], ["Permissions", ["p2", "ego.root"]]], "goodtoken_alice", "empty"),
 ]
 
 
@@ -79,7 +83,7 @@ def call_pool(rng):
     k = rng.choice([0, 1, 1, 1, 2, 2, 3])
     return [["Authentication", True], ["Authentication", False], ["LightWeight", True], ["LightWeight", False],
             ["CanAuthenticate", True], ["CanAuthenticate", False], VAL, VAL, ["Permissions", rng.sample(perms, k)],
-            ["Permissions", rng.sample(perms, rng.choice([1, 2]))]]
+            ["Permissions", rng.sample(perms, rng.choice([1, 2]))], ["Permissions", rng.sample(perms, rng.choice([2, 3, 4]))]]
 
 
 def gen_cases(rng, n):
@@ -198,6 +202,104 @@ def unsafe_chain(calls):
     return bool(req and wd)
 
 
+STORE_USERS = {"h1": 7, "h2": 8}
+STORE_CORPUS = [
+    # grant, use, revoke, use again (seeded change C20-4: the SQL-backed store kept serving the old record)
+    [["set", "h1", ["ego.logon", "p1"]], ["req", ["p1"], "h1", "basic"], ["req", ["p1"], "h1", "token"],
+     ["set", "h1", ["ego.logon"]], ["req", ["p1"], "h1", "basic"], ["req", ["p1"], "h1", "token"]],
+    [["set", "h2", ["ego.root"]], ["req", ["p2", "p3"], "h2", "token"], ["set", "h2", ["ego.logon", "p2"]],
+     ["req", ["p2", "p3"], "h2", "token"], ["req", ["p2"], "h2", "token"], ["set", "h2", ["ego.logon", "p3"]],
+     ["req", ["p2"], "h2", "token"], ["req", ["p3"], "h2", "token"], ["req", ["p3"], "h1", "token"]],
+    [["set", "h1", ["p1"]], ["req", ["p1"], "h1", "basic"], ["req", ["p1"], "h1", "token"]],
+]
+
+
+def gen_store_histories(rng, n):
+    out = []
+    for _ in range(n):
+        h, basic = [], 0
+        for _ in range(rng.randint(6, 11)):
+            u = rng.choice(["h1", "h1", "h2"])
+            if rng.random() < 0.4:
+                ps = [p for p in ("p1", "p2", "p3") if rng.random() < 0.5]
+                if rng.random() < 0.9:
+                    ps = ["ego.logon"] + ps
+                if rng.random() < 0.08:
+                    ps.append("ego.root")
+                h.append(["set", u, ps])
+            else:
+                kind = "token"
+                if basic < 1 and rng.random() < 0.12:
+                    kind, basic = "basic", basic + 1
+                h.append(["req", rng.sample(["p1", "p2", "p3"], rng.choice([1, 1, 2])), u, kind])
+        out.append(h)
+    return out
+
+
+def csop(op):
+    if op[0] == "set":
+        return "SetPerms %d [%s]%%N" % (STORE_USERS[op[1]], ";".join(str(PERM_ID[p]) for p in op[2]))
+    return "Request (build [Permissions [%s]%%N]) %d %s" % (";".join(str(PERM_ID[p]) for p in op[1]), STORE_USERS[op[2]],
+                                                           "true" if op[3] == "token" else "false")
+
+
+def store_stage(ck, binp, env, coq_ok, quick):
+    """permission changes and requests interleaved, on the file-backed and the SQL-backed user store"""
+    if ck.replay_file:
+        rp = json.load(open(ck.replay_file))["replay"]
+        hists = [rp["store_history"]] if "store_history" in rp else []
+    else:
+        hists = STORE_CORPUS + gen_store_histories(ck.rng, 22 if quick else 300)
+    if not hists:
+        return 0
+    sin, sout = os.path.join(ck.work, "sin.json"), os.path.join(ck.work, "sout.json")
+    json.dump({"histories": hists}, open(sin, "w"))
+    rc, log = vf.run_bin(binp, "^TestVerifStore$", {"VERIF_IN": sin, "VERIF_OUT": sout, "HOME": env["HOME"], "TMPDIR": env["TMPDIR"]})
+    if rc != 0:
+        ck.violation("harness-run", "user-store history harness failed:\n" + log[-1500:], replay={"log": log[-3000:]}, found_input=False)
+        return 0
+    got = json.load(open(sout))
+    model = None
+    if coq_ok:
+        pre = ("From Common Require Import Base.\nFrom Gate Require Import Model.\nOpen Scope N_scope.\n"
+               "Definition hists : list (list sop) := [\n" + ";\n".join("[%s]" % ";".join(csop(o) for o in h) for h in hists) + "].\n")
+        okc, out = vf.coq_eval(GROUP, ck.work, "scases", pre, {
+            "R": "flat_map (fun h => map (fun r => match r with Invoked => 1 | Status n => n end) (run_store [] h)) "
+                 "(map (fun h => [SetPerms 7 [LOGON]; SetPerms 8 [LOGON]] ++ h) hists)"})
+        if not okc:
+            ck.violation("correspondence-eval", "model evaluation of the store histories failed:\n" + out[-1500:], replay={"log": out[-3000:]},
+                         found_input=False)
+        else:
+            model = out["R"]
+    n = k = 0
+    for backend in ("file", "database"):
+        k = 0
+        for hi, h in enumerate(hists):
+            cur = {"h1": {"ego.logon"}, "h2": {"ego.logon"}}
+            ri = 0
+            for op in h:
+                if op[0] == "set":
+                    cur[op[1]] = set(op[2])
+                    continue
+                r = got[backend][hi][ri]
+                ri += 1
+                n += 1
+                need, u, kind = set(op[1]), op[2], op[3]
+                rep = {"store_history": h, "backend": backend, "request_index": ri - 1, "request": op, "holds_now": sorted(cur[u]), "real": r}
+                ok_now = ("ego.root" in cur[u] or need <= cur[u]) and (kind == "token" or bool(cur[u] & {"ego.logon", "ego.root"}))
+                if r["invoked"] and not ok_now:
+                    ck.violation("store:stale-permission:" + backend, "%s user store: handler ran for %s (%s) on a route requiring %r although the user "
+                                 "now holds only %r (history %r)" % (backend, u, kind, sorted(need), sorted(cur[u]), h), replay=rep)
+                elif model is not None:
+                    want = model[k]
+                    if (1 if r["invoked"] else r["status"]) != want:
+                        ck.violation("corr-store:" + backend, "%s user store: request #%d %r of history %r answers %r, model %d (user holds %r)" % (
+                            backend, ri - 1, op, h, r, want, sorted(cur[u])), replay=rep, found_input=False)
+                k += 1
+    ck.cov["store_histories"] = {"histories": len(hists), "requests_per_backend": k, "backends": ["file", "database (sqlite3)"]}
+    return n
+
+
 def ccall(c):
     if c[0] == "ValidateUsing":
         return "ValidateUsing"
@@ -229,7 +331,7 @@ def run(ck):
               "the real route table is the one built by defineStaticRoutes + defineNativeAdminHandlers with default settings")
     ck.trusted("harness/C20/gate_test.go, harness/C32/router_dump.go, harness/C32/table_test.go (overlays), props/C20.py")
     thms = ["C20_refuted", "C20_refuted_perms_unauth", "C20_gate_partial", "C20_rejected_not_invoked", "C20_builder_partial",
-            "C20_builder_refuted"]
+            "C20_builder_refuted", "C20_revoked_not_invoked"]
     coq_ok = ck.coq_stage(GROUP, theorems=thms)
 
     ok, binp = vf.go_test_build(ck.work, "internal/router",
@@ -242,7 +344,7 @@ def run(ck):
         rp = json.load(open(ck.replay_file))["replay"]
         cases = [(rp["calls"], rp["cred"], rp.get("body", "empty"))] if "calls" in rp else list(CORPUS)
     else:
-        cases = list(CORPUS) + gen_cases(ck.rng, 420 if quick else 6000)
+        cases = list(CORPUS) + gen_cases(ck.rng, 360 if quick else 6000)
     # real declarations (source scan): every chain that mixes a requirement with a withdrawing call is also driven
     decls = [] if ck.replay_file else scan_declarations(vf.REPO)
     decl_cases = {}
@@ -295,6 +397,13 @@ def run(ck):
                        "gate:permissions-without-authentication" if not r["must"] else "gate:permission-check-bypassed")
                 ck.violation(sig, "handler ran for credential form %s (authenticated=%d, holds %r; body %s) although the route %r requires %r" % (
                     form, a, sorted(uperms), body, calls, r["perms"]), replay=rep)
+        # builder: every permission named in any Permissions(...) call of the declaration must be required
+        declared_perms = [p for c in calls if c[0] == "Permissions" for p in c[1]]
+        missing = [p for p in declared_perms if p not in (r["perms"] or [])]
+        if missing:
+            ck.violation("builder:permission-dropped", "declaration %r names permission(s) %r but the route requires only %r%s" % (
+                calls, missing, r["perms"], "; the handler ran for %s who lacks them" % form if r["invoked"] and not ad and not set(missing) <= uperms else ""),
+                replay=rep)
         # builder: a requested authentication that no later Authentication(false) withdrew must survive
         req_idx = [i for i, c in enumerate(calls) if c[0] == "Permissions" or (c[0] == "Authentication" and c[1])]
         if req_idx and not r["must"]:
@@ -337,6 +446,8 @@ Definition one (c : list call * cred * option bool) : list N :=
                                                                               rp_, rresp, [must, can, light, vald], mp, resp),
                                      replay={"calls": calls, "cred": form, "body": body, "real": r}, found_input=False)
             ck.cov["traces_validated_against_impl"] = len(cases) - bad
+
+    nstore = store_stage(ck, binp, env, coq_ok, quick)
 
     # ---------------------------------------------------------------- the real table satisfies safe_flags
     H = os.path.join(vf.HARNESS, "C32")
@@ -433,7 +544,7 @@ Definition one (c : list call * cred * option bool) : list N :=
                                         "must_authenticate": sum(t["must"] for t in table),
                                         "with_permissions": sum(bool(t["perms"]) for t in table)}
 
-    ck.cov["evaluations"] = len(cases) + ntab + nreal
+    ck.cov["evaluations"] = len(cases) + ntab + nreal + nstore
     ck.cov["distinct_nontrivial"] = len(nontriv)
     ck.cov["input_distribution"] = {"declarations_x_credentials": len(cases), "per_credential_form": hist,
                                     "handler_invoked": sum(1 for r in res if r["invoked"]),
